@@ -597,6 +597,22 @@ func ruleOneWitness(w *World, r *Run, rule string) {
 	fn := w.fn(fnMain)
 	pPers := paramN(fn, 2)
 	nStarted := 0
+	inclFacts, exclFacts, exclPos := map[string][]map[string]bool{}, map[string][]map[string]bool{}, map[string]string{}
+	defer func() {
+		for where, ex := range exclFacts {
+			key := fnMain + " | " + where + " gets every configured log"
+			sep := separators(ex, inclFacts[where])
+			mapSep, ok := asLogMapSeparators(w)
+			switch {
+			case len(sep) == 0:
+				r.Fail("C17.b", key, exclPos[where], "a configured log is in the witness's map but missing from the list given to the "+where+" (witness map and feeder/endpoint list describe different sets of logs)")
+			case !ok || !sameSet(sep, mapSep):
+				r.Fail("C17.b", key, exclPos[where], fmt.Sprintf("entries with %v are left out of the list given to the %s, but the witness's map leaves out entries with %v: the witness and the %s would describe different sets of logs", condKeys(sep), where, condKeys(mapSep), where))
+			default:
+				r.Pass("C17.b", key+" | entries left out are left out of the witness's map for the same reason", exclPos[where], "")
+			}
+		}
+	}()
 	for _, mp := range mps {
 		s := mp.s
 		if !mp.waited {
@@ -661,7 +677,17 @@ func ruleOneWitness(w *World, r *Run, rule string) {
 				t = t.Args[0]
 			}
 			for _, lg := range okLogs {
-				r.Check(have[lg], "C17.b", fnMain+" | "+where+" gets every configured log", pos, "a configured log is in the witness's map but missing from the list given to the "+where+" (witness map and feeder/endpoint list describe different sets of logs)")
+				ent := entryOfNewLog(lg)
+				fs := entryFieldFacts(s, ent)
+				if have[lg] {
+					r.Pass("C17.b", fnMain+" | "+where+" gets every configured log", pos, "")
+					inclFacts[where] = append(inclFacts[where], fs)
+				} else {
+					// left out: fine exactly when the entry is left out of the witness's map for the same reason (decided
+					// after all paths have been seen, from the conditions on the entry that separate the two cases)
+					exclFacts[where] = append(exclFacts[where], fs)
+					exclPos[where] = pos
+				}
 			}
 		}
 		for _, nd := range calls(s, append([]string{fnNewDistributor}, distCtors...)...) {
@@ -944,7 +970,12 @@ func ruleEveryFeeder(w *World, r *Run, rule string) {
 		}
 		switch {
 		case isMapTerm(coll):
-			if !(F.Kind == "rangeelem" && F.Args[0] == it && c.Kind == "rangekey" && c.Args[0] == it) {
+			// the value is the feeder itself or a record with the feeder among its fields
+			elem, fld := F, ""
+			if F.Kind == "field" && len(F.Args) == 1 && F.Args[0].Kind == "rangeelem" {
+				elem, fld = F.Args[0], F.Name
+			}
+			if !(elem.Kind == "rangeelem" && elem.Args[0] == it && c.Kind == "rangekey" && c.Args[0] == it) {
 				return false, "feeder and log are not the key and value of one entry of the feeder table"
 			}
 			n := 0
@@ -953,7 +984,11 @@ func ruleEveryFeeder(w *World, r *Run, rule string) {
 					continue
 				}
 				n++
-				if !pairFromOneEntry(mu.Args[0], unwrap(s, mu.Binds, mu.Seq, mu.Args[1])) {
+				val := mu.Args[1]
+				if fld != "" {
+					val = structField(structArg(mu, val), fld)
+				}
+				if !pairFromOneEntry(mu.Args[0], unwrap(s, mu.Binds, mu.Seq, val)) {
 					return false, "the feeder table receives an entry that is not (config.NewLog(E), E.Feeder.FeedFunc()) for one configuration entry E: " + short(fmt.Sprint(mu.Args))
 				}
 			}
@@ -1013,8 +1048,8 @@ func ruleEveryFeeder(w *World, r *Run, rule string) {
 				good, why = false, "a feeder is run synchronously by Main instead of in a goroutine of the error group"
 			case len(fc.Args) != 5 || len(wc) != 1 || fc.Args[0] != res(wc[0], 1):
 				good, why = false, "the feeder does not run under the error group's context (it would outlive the failure of the other components)"
-			case fc.Args[4] != interval:
-				good, why = false, "the feeder is not given the configured poll interval"
+			case fc.Args[4] != interval && !implies(s.Facts, "<", mk("const", "0", 0, fc.Args[4].Typ), fc.Args[4], true):
+				good, why = false, "the feeder is given an interval that is neither the configured poll interval nor known to be positive on this path (with 0 a feeder feeds once and returns: the log is no longer followed)"
 			}
 			if good {
 				ad := structArg(fc, fc.Args[2])
@@ -1229,4 +1264,153 @@ func ruleNeverGivesUp(w *World, r *Run, rule string) {
 			r.Fail(rule, key, w.pos(fpCl.Pos()), "fetchProof has no from.Size == 0 arm: the first submission would carry a non-empty proof or fail")
 		}
 	}
+}
+
+
+// entryOfNewLog: the configuration entry a config.NewLog result was built from (the struct whose fields are its arguments).
+func entryOfNewLog(lg *Term) *Term {
+	if lg == nil || lg.Kind != "call" {
+		return nil
+	}
+	for _, a := range lg.Args[2:] {
+		if a != nil && a.Kind == "field" && len(a.Args) == 1 {
+			return a.Args[0]
+		}
+	}
+	return nil
+}
+
+// entryFieldFacts: the facts of the path that are plain conditions on one field of the entry: a boolean field, or a field
+// compared with a constant. Rendered as "Field=true", "Field!=6".
+func entryFieldFacts(s Summary, ent *Term) map[string]bool {
+	out := map[string]bool{}
+	if ent == nil {
+		return out
+	}
+	isFld := func(t *Term) bool { return t != nil && t.Kind == "field" && len(t.Args) == 1 && t.Args[0] == ent }
+	for _, f := range s.Facts {
+		t := f.T
+		switch {
+		case isFld(t):
+			out[fmt.Sprintf("%s=%v", t.Name, f.Pos)] = true
+		case t.Kind == "binop" && t.Name == "==" && len(t.Args) == 2:
+			a, b := t.Args[0], t.Args[1]
+			if isFld(b) {
+				a, b = b, a
+			}
+			if isFld(a) && (b.Kind == "const" || b.Kind == "zero") {
+				op := "=="
+				if !f.Pos {
+					op = "!="
+				}
+				out[a.Name+op+b.Name] = true
+			}
+		}
+	}
+	return out
+}
+
+// separators: the conditions every left-out instance has and no included instance has.
+func separators(excl, incl []map[string]bool) map[string]bool {
+	sep := map[string]bool{}
+	if len(excl) == 0 {
+		return sep
+	}
+	for k := range excl[0] {
+		sep[k] = true
+	}
+	for _, e := range excl[1:] {
+		for k := range sep {
+			if !e[k] {
+				delete(sep, k)
+			}
+		}
+	}
+	for _, in := range incl {
+		for k := range in {
+			delete(sep, k)
+		}
+	}
+	return sep
+}
+
+func sameSet(a, b map[string]bool) bool {
+	if len(a) != len(b) {
+		return false
+	}
+	for k := range a {
+		if !b[k] {
+			return false
+		}
+	}
+	return true
+}
+
+func condKeys(m map[string]bool) []string {
+	var out []string
+	for k := range m {
+		out = append(out, k)
+	}
+	sort.Strings(out)
+	return out
+}
+
+// asLogMapSeparators: the conditions on a configuration entry under which AsLogMap leaves it out of the map it returns
+// although it raised no error for it (explored on its own, one entry).
+func asLogMapSeparators(w *World) (map[string]bool, bool) {
+	fn := w.fn(fnAsLogMap)
+	if fn == nil {
+		return nil, false
+	}
+	e := w.engine(3, 1)
+	var incl, excl []map[string]bool
+	for _, s := range e.Explore(fn) {
+		if s.Panic || s.Trunc != "" || len(s.Rets) != 2 || s.Rets[1].Kind != "nil" {
+			continue
+		}
+		iters := eventsOfKind(s, "index")
+		_ = iters
+		// the first entry of the configuration's list, if the loop ran
+		var ent *Term
+		for _, f := range s.Facts {
+			anySub(f.T, func(x *Term) bool {
+				if ent == nil && x.Kind == "deref" && len(x.Args) == 1 && x.Args[0].Kind == "indexaddr" {
+					ent = x
+				}
+				return false
+			})
+		}
+		for _, ev := range s.Events {
+			for _, a := range append([]*Term{ev.Recv}, ev.Args...) {
+				if a == nil {
+					continue
+				}
+				anySub(a, func(x *Term) bool {
+					if ent == nil && x.Kind == "deref" && len(x.Args) == 1 && x.Args[0].Kind == "indexaddr" {
+						ent = x
+					}
+					return false
+				})
+			}
+		}
+		if ent == nil {
+			continue // no entry processed
+		}
+		fs := entryFieldFacts(s, ent)
+		in := false
+		for _, mu := range eventsOfKind(s, "mapupdate") {
+			if mu.Recv == s.Rets[0] {
+				in = true
+			}
+		}
+		if in {
+			incl = append(incl, fs)
+		} else {
+			excl = append(excl, fs)
+		}
+	}
+	if len(incl) == 0 {
+		return nil, false
+	}
+	return separators(excl, incl), true
 }
